@@ -20,7 +20,9 @@ EXTRACT = os.path.join(COQ, "extract")
 EVIDENCE = os.path.join(VERIF, "evidence")
 REPLAYS = os.path.join(VERIF, "replays")
 KNOWN = os.path.join(VERIF, "known_findings.txt")
-DRIVER_GROUPS = ["sp"]
+DRIVER_GROUPS = ["sp", "models"]
+GROUP_PRELUDES = {"sp": ["prelude_base.ml", "prelude_num.ml"], "models": ["prelude_base.ml"],
+                  "mix": ["prelude_base.ml", "prelude_num.ml"], "tr": ["prelude_base.ml", "prelude_num.ml"]}
 NCPU = os.cpu_count() or 4
 
 FORBIDDEN = re.compile(
@@ -180,14 +182,14 @@ def build_driver(group):
                 os.replace(os.path.join(COQ, f"kernels_{group}{ext}"), os.path.join(EXTRACT, f"kernels_{group}{ext}"))
         exe = os.path.join(EXTRACT, f"driver_{group}")
         kml = os.path.join(EXTRACT, f"kernels_{group}.ml")
-        srcs = [kml, os.path.join(EXTRACT, "prelude.ml"), os.path.join(EXTRACT, f"dispatch_{group}.ml")]
+        srcs = [kml] + [os.path.join(EXTRACT, p) for p in GROUP_PRELUDES[group]] + [os.path.join(EXTRACT, f"dispatch_{group}.ml")]
         if os.path.exists(exe) and all(os.path.getmtime(exe) >= os.path.getmtime(s) for s in srcs):
             return True, log
         drv = os.path.join(EXTRACT, f"driver_{group}.ml")
         with open(drv, "w") as f:
             f.write(f"open Kernels_{group}\n")
-            f.write(open(srcs[1]).read())
-            f.write(open(srcs[2]).read())
+            for p in srcs[1:]:
+                f.write(open(p).read())
         rc, out = sh(["ocamlfind", "ocamlopt", "-O3" if False else "-inline", "50", "-w", "-a",
                       f"kernels_{group}.mli", f"kernels_{group}.ml", f"driver_{group}.ml", "-o", f"driver_{group}"],
                      cwd=EXTRACT, timeout=600)
